@@ -286,6 +286,8 @@ ALPHABETS = {
     # a launch composite (a dataclass holding a list that may be empty) with and without image records; a code whose taught decoder raises
     'LAUNCH': (['DBG_DYLD_TIMING_LAUNCH_EXECUTABLE', 'DYLD_uuid_map_a', 'BSC_getpid'], (1, 2)),
     'RAISE': (['BSC_getpid', 'R:MACH_vm_page_release', 'BSC_getuid'], (1,)),
+    'ZERO': (['BSC_getpid', 'U:0x0'], (1,)),
+    'T63': (['BSC_getpid', 'TRACE_DATA_EXEC'], (5, 0x8000000000000005)),
     'NAME': (['TRACE_DATA_NEWTHREAD', 'TRACE_STRING_NEWTHREAD', 'TRACE_DATA_EXEC', 'TRACE_STRING_EXEC', 'BSC_getpid'], (1, 2)),
     'SIDE': (['BSC_getpid', 'TRACE_DATA_THREAD_TERMINATE', 'TRACE_DATA_NEWTHREAD', 'TRACE_DATA_THREAD_TERMINATE_PID', 'PERF_THD_Data'], (1, 2)),
 }
@@ -322,8 +324,8 @@ class C04(Check):
 
     def plan(self):
         if self.tier == 'quick':
-            return [('A40', 4), ('FRAG', 3), ('T3', 3), ('C7', 4), ('A16+map', 4), ('T3+map', 3), ('SIDE', 3), ('A16+gen', 4), ('C7+gen', 3), ('T3+gen', 3), ('A16+ts', 4), ('FRAG+ts', 3), ('A16+same', 4), ('A16+same+gen', 4), ('FRAG+same', 3), ('TWIN', 4), ('VMF', 5), ('REN', 5), ('NAME', 3), ('LAUNCH', 3), ('LAUNCH+gen', 3), ('RAISE', 4)]
-        return [('A40', 5), ('A16', 6), ('FRAG', 4), ('A48', 4), ('T3', 4), ('C7', 5), ('A40+map', 4), ('T3+map', 4), ('SIDE', 4), ('A40+gen', 4), ('C7+gen', 4), ('T3+gen', 4), ('A40+ts', 4), ('FRAG+ts', 4), ('A40+same', 4), ('A16+same+gen', 5), ('FRAG+same', 4), ('TWIN', 5), ('VMF', 6), ('REN', 6), ('NAME', 4), ('LAUNCH', 4), ('LAUNCH+gen', 4), ('RAISE', 5)]
+            return [('A40', 4), ('FRAG', 3), ('T3', 3), ('C7', 4), ('A16+map', 4), ('T3+map', 3), ('SIDE', 3), ('A16+gen', 4), ('C7+gen', 3), ('T3+gen', 3), ('A16+ts', 4), ('FRAG+ts', 3), ('A16+same', 4), ('A16+same+gen', 4), ('FRAG+same', 3), ('TWIN', 4), ('VMF', 5), ('REN', 5), ('NAME', 3), ('LAUNCH', 3), ('LAUNCH+gen', 3), ('RAISE', 4), ('ZERO', 4), ('T63', 3)]
+        return [('A40', 5), ('A16', 6), ('FRAG', 4), ('A48', 4), ('T3', 4), ('C7', 5), ('A40+map', 4), ('T3+map', 4), ('SIDE', 4), ('A40+gen', 4), ('C7+gen', 4), ('T3+gen', 4), ('A40+ts', 4), ('FRAG+ts', 4), ('A40+same', 4), ('A16+same+gen', 5), ('FRAG+same', 4), ('TWIN', 5), ('VMF', 6), ('REN', 6), ('NAME', 4), ('LAUNCH', 4), ('LAUNCH+gen', 4), ('RAISE', 5), ('ZERO', 5), ('T63', 4)]
 
     def bounds(self):
         return {'spaces': [{'alphabet': a, 'symbols': len(alphabet(a).syms), 'depth': d,
@@ -337,6 +339,10 @@ class C04(Check):
         out += [('long', n, fill) for k in range(6, 14 if self.tier == 'quick' else 16) for n in range(2 ** k - 2, 2 ** k + 3) for fill in ('late-start', 'late-start+gen')]
         ea, ed = ('A16', 3) if self.tier == 'quick' else ('A40', 3)
         out += [('entry', ea, ed, s0) for s0 in range(len(alphabet(ea).syms))]
+        # a record whose debug id is 0 (event id 0, qualifier NONE) inside windows, and thread ids with the top bit set next to their
+        # low-63-bit twins: through every entry point (version-3 files included)
+        for extra in ('ZERO', 'T63'):
+            out += [('entry', extra, 3, s0) for s0 in range(len(alphabet(extra).syms))]
         for a, d in self.plan():
             n = len(alphabet(a).syms)
             if n ** d > 5_000_000:
